@@ -819,6 +819,12 @@ func Test_matchFilter(t *testing.T) {
 				assert.Nil(t, value)
 				assert.False(t, match)
 			})
+			t.Run("catastrophic backtracking is stopped by a timeout", func(t *testing.T) {
+				match, value, err := matchFilter(Filter{Type: "string", Pattern: to.Ptr("^(a+)+$")}, strings.Repeat("a", 40)+"!")
+				require.ErrorContains(t, err, "match timeout")
+				assert.Nil(t, value)
+				assert.False(t, match)
+			})
 			t.Run("too many capture groups", func(t *testing.T) {
 				match, value, err := matchFilter(Filter{Type: "string", Pattern: to.Ptr("(v)(a)lue")}, "value")
 				require.EqualError(t, err, "can't return results from multiple regex capture groups")
